@@ -46,4 +46,25 @@ Section Secant.
     rewrite -Hp -Hf. apply/eqP. rewrite eq_sym subr_eq. apply/eqP.
     by rewrite -mulrDr -mulrDl Hs mul1r mulrA.
   Qed.
+
+  (* EigenSolve, eigenvalue sensitivities: p^T (A - l B) = 0 (left eigenvector), (A' - l' B') q' = 0, with the
+     eigenvalues l, l' central (scalars).  Then  (l' - l) p^T B q' = p^T ((A' - A) - l' (B' - B)) q'  exactly, so
+     dl = p^T (dA - l dB) q / (p^T B q): the code's  dA = dw q q^T / (q^T B q),  dB = - l dw q q^T / (q^T B q)
+     for symmetric problems (p = q). *)
+  Theorem eigenvalue_secant (A A' B B' p q' l l' : R) :
+    (forall x, l * x = x * l) -> (forall x, l' * x = x * l') ->
+    p * (A - l * B) = 0 -> (A' - l' * B') * q' = 0 ->
+    (l' - l) * (p * B * q') = p * ((A' - A) - l' * (B' - B)) * q'.
+  Proof.
+    move=> Hl Hl' H1 H2.
+    have E1 : p * A = l * (p * B).
+    { move/eqP: H1. rewrite mulrBr subr_eq0 => /eqP ->. by rewrite !mulrA -Hl. }
+    have E2 : A' * q' = l' * (B' * q').
+    { move/eqP: H2. rewrite mulrBl subr_eq0 => /eqP ->. by rewrite mulrA. }
+    rewrite !mulrBr !mulrBl -!mulrA E2.
+    rewrite [p * (A * q')]mulrA E1 -!mulrA.
+    rewrite [p * (l' * (B' * q'))]mulrA -Hl' -!mulrA.
+    rewrite [p * (l' * (B * q'))]mulrA -Hl' -!mulrA.
+    by rewrite opprB [RHS]addrC addrA subrK.
+  Qed.
 End Secant.
